@@ -466,7 +466,7 @@ func (e *c18Env) demand(p c18Probe, tag, cls, detail string, nops, nmut int) {
 		if typ == "Iterator" && p.method == "SetReleaser" && released {
 			c.Res.Count("c18", "documented panic: SetReleaser on a released iterator")
 		} else if typ == "Iterator" && e.mode == "closed" && !released {
-			c.Res.Violate("closed:iterator-held-over-close:panic", fmt.Sprintf("iterator still held when the DB was closed (the documentation calls this unsafe): %s panics instead of reporting ErrClosed: %s", p.method, detail), rp())
+			c.Res.Note("%s: %s (%v)", "out-of-scope:iterator-held-over-close:panic", fmt.Sprintf("iterator still held when the DB was closed (the documentation calls this unsafe): %s panics instead of reporting ErrClosed: %s", p.method, detail), rp())
 		} else {
 			pre := e.mode
 			if released {
@@ -491,15 +491,14 @@ func (e *c18Env) demand(p c18Probe, tag, cls, detail string, nops, nmut int) {
 		if !want {
 			if e.mode == "closed" {
 				c.Res.Violate("closed:Transaction."+p.method+":not-closed-error", fmt.Sprintf("after DB.Close, %s on a finished transaction (%s) returned class %s (%s)", p.method, p.recv, cls, detail), rp())
-			} else if p.method != "Write:empty" {
-				c.Res.Violate("released:Transaction."+p.method+":not-done-error", fmt.Sprintf("finished transaction (%s), DB %s: %s returned class %s (%s)", p.recv, e.mode, p.method, cls, detail), rp())
 			} else {
-				c.Res.Count("c18", "finished transaction accepts an empty batch (nil error)")
+				// (an empty batch used to be accepted with a nil error by a finished transaction: repaired in the repository)
+				c.Res.Violate("released:Transaction."+p.method+":not-done-error", fmt.Sprintf("finished transaction (%s), DB %s: %s returned class %s (%s)", p.recv, e.mode, p.method, cls, detail), rp())
 			}
 		}
 	case e.mode == "closed" && typ == "Iterator":
 		if cls != "ok" && cls != "closed" && cls != "released" {
-			c.Res.Violate("closed:iterator-held-over-close:bogus-error", fmt.Sprintf("iterator still held when the DB was closed (the documentation calls this unsafe): Error() after %s is %q — not ErrClosed, and the files are intact", p.method, detail), rp())
+			c.Res.Note("%s: %s (%v)", "out-of-scope:iterator-held-over-close:bogus-error", fmt.Sprintf("iterator still held when the DB was closed (the documentation calls this unsafe): Error() after %s is %q — not ErrClosed, and the files are intact", p.method, detail), rp())
 		}
 	case e.mode == "closed":
 		if !p.void && cls != "closed" {
